@@ -356,13 +356,19 @@ def stress_texts(rng, tier):
 # ---------------------------------------------------------------- running
 
 def q_read(path, n, shallow):
-    t = "(T==end_of_file->R='$o_t'(T);R='$o_t'(ok))" if shallow else "R='$o_t'(T)"
+    """read up to n terms; every outcome is an atom or a string (terms are written to text inside Prolog:
+    the library API's answer conversion panics on some improper lists, see notes/findings-misc.md)"""
+    if shallow:
+        t = "(T==end_of_file->R=eof;R='$o_t'(ok))"
+    else:
+        t = ("(T==end_of_file->R=eof;numbervars(T,0,_),write_term_to_chars(T,[quoted(true),ignore_ops(true),numbervars(true)],Cs),"
+             "R='$o_t'(Cs))")
     return ("open(\"%s\",read,S),findall(R,(between(1,%d,_),catch((read_term(S,T,[]),%s),error(E,_),R='$o_e'(E)),"
-            "numbervars(R,0,_),(R=='$o_t'(end_of_file)->!;true)),Rs),close(S)." % (path, n, t))
+            "(R==eof->!;true)),Rs),close(S)." % (path, n, t))
 
 
 RS_RE = re.compile(r"^\{Rs=(.*),S='\$dropped_value'\}")
-EOF_ITEM = "'$o_t'('end_of_file')"
+EOF_ITEM = "'eof'"
 
 
 def parse_rs(r):
@@ -468,17 +474,13 @@ def judge(it, rec):
     rs = parse_rs(whole)
     if rs is None:
         return False, "unparsable-result", whole[:200]
-    n_items = rs.count("'$o_t'(") + rs.count("'$o_e'(")
-    # class sequence of the implementation
-    classes = re.findall(r"'\$o_(t|e)'\(", rs)
-    errs = re.findall(r"'\$o_e'\(('[a-z_]+')\(('?[a-z_]*'?)", rs)
     for e in re.findall(r"'\$o_e'\(('[a-z_]+'|[^'])", rs):
         if e != "'syntax_error'":
             return False, "non-syntax-error", "a read raised something else than a syntax error: %s" % rs[:300]
     if it.get("shallow", False):
         seq = []
-        for m in re.finditer(r"'\$o_t'\('(ok|end_of_file)'\)|'\$o_e'\('syntax_error'\('([a-z_]+)'\)\)", rs):
-            seq.append("t" if m.group(1) == "ok" else ("eof" if m.group(1) else "e:" + m.group(2)))
+        for m in re.finditer(r"'\$o_t'\('ok'\)|'(eof)'|'\$o_e'\('syntax_error'\('([a-z_]+)'\)\)", rs):
+            seq.append("eof" if m.group(1) else ("e:" + m.group(2) if m.group(2) else "t"))
         if not seq or seq[-1] != "eof":
             return False, classify(text, mo, rs, None), "no end_of_file after %d reads: %s" % (len(seq), rs[:200])
         seq = seq[:-1]
@@ -502,7 +504,7 @@ def judge(it, rec):
         if srs is None:
             return False, "unparsable-result", sr[:200]
         tail = "," + EOF_ITEM + "]"
-        if not (srs.startswith("[") and srs.endswith(tail)) or (srs.count("'$o_t'(") + srs.count("'$o_e'(")) != 2:
+        if not (srs.startswith("[") and srs.endswith(tail)) or (srs.count("'$o_t'(") + srs.count("'$o_e'(")) != 1:
             return False, classify(text, mo, rs, j), "clause %d read alone does not give one outcome then end_of_file: %s" % (j, srs[:300])
         one = srs[1:-len(tail)]
         c, k, _ = mo[j]
@@ -519,14 +521,14 @@ def judge(it, rec):
 
 def classify(text, mo, rs, j):
     """stable defect class of a failing case (for known-finding matching)"""
-    if "\x00" in text and re.search(r"'\$o_t'\('\$VAR'\(0\)\)", rs):
+    if "\x00" in text and "'$o_t'(\"A\")" in rs:
         return "nul-read-as-unbound-term"
     items = re.findall(r"'\$o_[te]'\((?:[^'$]|'[^$])*", rs)
     if len(items) >= 3 and not rs.endswith(EOF_ITEM + "]") and len(set(items[-3:])) == 1 and items[-1].startswith("'$o_e'("):
         return "same-error-for-ever"
     # trailing layout: the implementation's reads = the model's plus one incomplete_reduction before end_of_file
     n_impl = rs.count("'$o_t'(") + rs.count("'$o_e'(")
-    if n_impl == len(mo) + 2 and rs.endswith("'$o_e'('syntax_error'('incomplete_reduction'))," + EOF_ITEM + "]") and not any(c == "e" for c, _, _ in mo):
+    if n_impl == len(mo) + 1 and rs.endswith("'$o_e'('syntax_error'('incomplete_reduction'))," + EOF_ITEM + "]") and not any(c == "e" for c, _, _ in mo):
         return "layout-before-eof-is-a-syntax-error"
     if any(c == "e" for c, _, _ in mo):
         return "no-resync-after-lexical-error"
@@ -580,7 +582,7 @@ def run(ctx):
         else:
             for c0 in diff.load_corpus("C17"):
                 items.append({"text": "".join(chr(c) for c in c0["cps"]), "shallow": c0.get("shallow", False), "what": c0.get("what", "corpus"), "family": "corpus"})
-            n = 1500 if tier == "quick" else 40000
+            n = int(os.environ.get("C17_N", "1500" if tier == "quick" else "40000"))
             fams = [("mut", 0.55), ("tail", 0.15), ("soup", 0.15), ("valid", 0.15)]
             for _ in range(n):
                 x = rng.random()
